@@ -376,6 +376,17 @@ func checkC05(c *Ctx) {
 		return
 	}
 	c.ruleDetachedData("L7.detached")
+	// the digest that is signed is the digest of the whole content: a reader that fails
+	// while the image is hashed makes signing fail (C1/C2, shared with C15)
+	if sa := c.FnOpt("authenticode.SignAuthenticode"); sa != nil {
+		cone := map[*ssa.Function]bool{}
+		for _, g := range c.cone(sa) {
+			for _, f := range withAnon(g) {
+				cone[f] = true
+			}
+		}
+		c.RuleC(func(f *ssa.Function) bool { return cone[f] })
+	}
 	fname := name(fn)
 	dv := c.deepViewOf(fn, 6)
 	dv.throughFields = true
@@ -524,6 +535,17 @@ func checkC05(c *Ctx) {
 			switch {
 			case haveAttrBytes && s[attributes.v]:
 				foundAttrs = true
+				// what is embedded is what was signed, byte for byte: elements that are
+				// taken apart and put together again (sorted, joined) on the way are
+				// other bytes whenever the order changes
+				for v := range s {
+					if cl, ok := v.(*ssa.Call); ok {
+						switch id2 := ir.CallID(cl); {
+						case strings.HasPrefix(id2, "sort."), strings.HasPrefix(id2, "slices.Sort"), id2 == "bytes.Join", strings.HasPrefix(id2, "slices.Reverse"):
+							bad = append(bad, "the attribute bytes that are embedded are rearranged ("+id2+") after the signature was made over them: what a verifier hashes is not what was signed when the order changes")
+						}
+					}
+				}
 				parsed := false
 				handCut := false
 				for v := range s {
